@@ -89,7 +89,12 @@ ConvOK(d, s) ==
            /\ d.pt = 3 /\ Len(d.pl) = Len(s.pl)
            /\ At(d.pl, 4) % 64 = At(s.pl, 4) /\ At(d.pl, 6) = At(s.pl, 6) /\ At(d.pl, 7) = At(s.pl, 7)
            /\ Slice(d.pl, 8, Len(d.pl) - 8) = Slice(s.pl, 8, Len(s.pl) - 8)
-       ELSE d.pt = s.pt /\ d.pl = s.pl                            \* status: strings, counters
+       ELSE IF s.pt = 1 THEN                                      \* capture-module status: serial number and version strings
+           /\ d.pt = 1 /\ CmFields(d.pl).ok /\ CmFields(s.pl).ok
+           /\ \A x \in 2..4 : CString(d.pl, CmFields(d.pl).fields[x]) = CString(s.pl, CmFields(s.pl).fields[x])
+       ELSE /\ d.pt = s.pt /\ Len(d.pl) >= 36                    \* interface status: interface id and the two counters
+            /\ Slice(d.pl, 0, 4) = Slice(s.pl, 0, 4) /\ Slice(d.pl, 4, 4) = Slice(s.pl, 4, 4)
+            /\ Slice(d.pl, 20, 4) = Slice(s.pl, 20, 4)
 
 TecmpOK(b, out) ==
     LET want == TecmpDecode(b) IN
